@@ -396,7 +396,11 @@ def run_case(case, ctx):
                     ctx.check(R >= max(rec_last), "returned-older-than-located", "%s: its last survey located seq%d with at least k distinct shares on servers that were still reachable when the read ended" % (d2desc, max(rec_last)),
                               dropped=bool(killed), ro=ro_reader)
                 newer_seen = sorted(set(s_[0] for e_ in epochs for s_ in e_["seen"] if s_[0] > R))
-                if newer_seen:
+                if newer_seen and last.get("mode") == "MODE_WRITE":
+                    # a write-cap holder's second attempt surveys in MODE_WRITE, whose stopping rule is "N+epsilon servers asked and epsilon of them empty"; the
+                    # keep-querying rule of the statement is MODE_READ's (and MODE_CHECK asks everybody anyway), so nothing is asserted about how far this one went
+                    classes.add("plain-read-retry-in-MODE_WRITE(not-asserted)")
+                elif newer_seen:
                     classes.add("plain-read-saw-newer-than-returned")
                     ctx.check(up_end <= last["asked"], "stopped-early", "%s: it had seen version(s) %r, newer than the one it returned, but its last survey asked only servers %r of the reachable %r" % (
                         d2desc, newer_seen, sorted(last["asked"]), sorted(up_end)), newer=True, dropped=bool(killed), ro=ro_reader)
